@@ -157,7 +157,8 @@ func main() {
 			nAct = 7
 		}
 		var sets [][]int
-		full := f.Tier == "thorough" || r.Proto == version.MaximumVersion.Protocol
+		full := r.Proto == version.MaximumVersion.Protocol ||
+			(f.Tier == "thorough" && (r.Proto == version.Minecraft_1_19_3.Protocol || r.Proto == version.Minecraft_1_20_3.Protocol || r.Proto == version.Minecraft_1_21_2.Protocol || r.Proto == version.Minecraft_1_21_4.Protocol))
 		if full {
 			for m := 0; m < 1<<nAct; m++ { // every subset, canonical order
 				var s []int
